@@ -195,17 +195,36 @@ ConstraintRow(row) ==
 
 RowDenotes(cls, row) == IF cls = "CNF" THEN ClauseRow(row) ELSE ConstraintRow(row)
 
-(* Names.  A name is a sequence of characters.  How a name is grouped with  *)
-(* braces or spaced is typesetting, not identity: names are compared with   *)
-(* `{', `}' and blanks removed.  A variable without a name of its own (the  *)
-(* formula calls it x<id>) may also be shown with its identifier as a       *)
-(* subscript (x_<id>, x_{<id>}).                                            *)
+(* Names.  A name is a sequence of characters.  Blanks and the braces of a   *)
+(* group that is not the argument of a sub/superscript are typesetting, not *)
+(* identity (the writer splits a name inside \overline{..}, which moves such *)
+(* braces): they are removed before names are compared.  The braces of a    *)
+(* script argument are identity: a_{2^k} and a_{2}^k are different names.   *)
+(* A variable without a name of its own (the formula calls it x<id>) may    *)
+(* also be shown with its identifier as a subscript (x_<id>, x_{<id>}).     *)
 Strip(n) == SelectSeq(n, LAMBDA ch : ch \notin {"{", "}", " "})
 NoUs(n)  == SelectSeq(n, LAMBDA ch : ch # "_")
+RECURSIVE CloseAt(_, _, _)
+\* position of the brace closing the group whose inside starts at position p (depth d), 0 if none
+CloseAt(s, p, d) == IF p > Len(s) THEN 0
+                    ELSE IF s[p] = "{" THEN CloseAt(s, p + 1, d + 1)
+                    ELSE IF s[p] = "}" THEN (IF d = 1 THEN p ELSE CloseAt(s, p + 1, d - 1))
+                    ELSE CloseAt(s, p + 1, d)
+RECURSIVE Shape(_)
+Shape(s) ==
+    IF s = <<>> THEN <<>>
+    ELSE IF s[1] = " " THEN Shape(Tail(s))
+    ELSE IF s[1] \in {"_", "^"} /\ Len(s) >= 2 /\ s[2] = "{" /\ CloseAt(s, 3, 1) > 0
+         THEN LET e == CloseAt(s, 3, 1)
+              IN  <<s[1], "{">> \o Shape(SubSeq(s, 3, e - 1)) \o <<"}">> \o Shape(SubSeq(s, e + 1, Len(s)))
+    ELSE IF s[1] = "{" /\ CloseAt(s, 2, 1) > 0
+         THEN LET e == CloseAt(s, 2, 1)
+              IN  Shape(SubSeq(s, 2, e - 1)) \o Shape(SubSeq(s, e + 1, Len(s)))
+    ELSE IF s[1] \in {"{", "}"} THEN Shape(Tail(s))
+    ELSE <<s[1]>> \o Shape(Tail(s))
 Unnamed(labels, named) == {Strip(labels[v]) : v \in {w \in 1..Len(labels) : ~named[w]}}
-Canon(n, U) == LET t == Strip(n)
-                   u == NoUs(t)
-               IN  IF u \in U THEN u ELSE t
+Canon(n, U) == LET u == NoUs(Strip(n))
+               IN  IF u \in U THEN u ELSE Shape(n)
 
 \* what row j must show: coefficient, polarity, name of every term
 WantRow(c, labels, U) ==
